@@ -90,11 +90,17 @@ func relOf(c *Case, kind, rel string) *Case {
 func init() {
 	// C04: annotation shapes x substitutions
 	gens["C04"] = func(r *RNG, id string) *Case {
-		c := genVarCase(r, id, varOpts{fmtWeights: [2]int{1, 2}, withIns: r.Chance(1, 3), gffShapes: true, allowPhase: true, maxGenes: 6})
+		if r.Chance(1, 6) { // the SAM form: several reads per worker, insertions at different places in reads of one width
+			c := samVarGen(r, id, r.PickInt([]int{2, 5}), false)
+			c.Set("focus", "nucaa")
+			c.Tag("sam-form")
+			return c
+		}
+		c := genVarCase(r, id, varOpts{fmtWeights: [2]int{1, 2}, withIns: r.Chance(1, 3), gffShapes: true, allowPhase: true, maxGenes: 6, sameName: true})
 		c.Set("focus", "nucaa") // C04 speaks about nuc: and aa: records; ins:/del: belong to C05
 		return c
 	}
-	execs["C04"] = execVar
+	execs["C04"] = func(r *RNG, c *Case) { execs[c.Prop](r, c) }
 	// C05: gap layouts, and the column-invariance relation on the real code
 	gens["C05"] = func(r *RNG, id string) *Case {
 		if r.Chance(1, 4) { // the SAM form: multi-record queries, insertions after N / D, several insertions per record
@@ -141,7 +147,7 @@ func init() {
 			c.Tag("sam-aggregate")
 			return c
 		}
-		c := genVarCase(r, id, varOpts{fmtWeights: [2]int{1, 1}, withIns: r.Bool(), agg: true, window: r.Chance(1, 3), maxGenes: 4})
+		c := genVarCase(r, id, varOpts{fmtWeights: [2]int{1, 1}, withIns: r.Bool(), agg: true, window: r.Chance(1, 3), maxGenes: 4, sameName: true})
 		if r.Chance(1, 2) {
 			return relOf(c, "agg", "aggregate")
 		}
